@@ -380,11 +380,12 @@ Proof.
   pose proof (req_end a [] RMethod [] 0 0 [] 0 s ltac:(lia) Hbl ltac:(cbn [length]; lia)) as He.
   cbn [length] in He. change ([] ++ a) with a in He. specialize (He E). destruct He as [He Hpe]. cbn [Nat.add] in *.
   cbn [obind]. unfold req_finish. destruct (Nat.leb (sc_pe s) (sc_ps s)); [reflexivity|].
-  destruct (match hm_get host_name (sc_headers s) with Some h => Some h | None => dh end) as [host|]; [|reflexivity].
+  generalize (usable_host (match hm_get host_name (sc_headers s) with Some h => Some h | None => dh end)). intros host.
   rewrite <- (app_nil_r a) at 2. rewrite (slice_chk_local a extra [] (sc_ps s) (sc_pe s) Hpe). rewrite app_nil_r.
   destruct (slice_chk (sc_ps s) (sc_pe s) a) as [target|e|]; [|reflexivity|reflexivity]. cbn [obind].
+  destruct (no_host host target); [reflexivity|].
   destruct (negb (method_ok (sc_method s))); [reflexivity|].
-  destruct (parse_uri https host target) as [[[auth path] query]|]; [|reflexivity].
+  destruct (uri_of https host target) as [[[auth path] query]|]; [|reflexivity].
   destruct (version_code (sc_ver s)); [|reflexivity].
   rewrite He. rewrite (slice_chk_tail a extra (length a) eq_refl).
   pose proof (slice_chk_tail a [] (length a) eq_refl) as Ht. rewrite app_nil_r in Ht. rewrite Ht.
